@@ -154,7 +154,7 @@ def check(ctx, report):
         ex = model.cls('FieldValueMultiple').methods.get('_parse_extensions')
         if ex is None or 'if extension and components' not in ast.unparse(ex.node):
             report.add('C18.R3', fm.construct + '@unknown', 'unknown components must be ignored unless an extension attribute exists')
-    report.floor('C18.R1', 30, 'named components')
+    report.floor('C18.R1', 24, 'named components')
 
 
 def folds_case_eq(f):
